@@ -487,7 +487,12 @@ func (s specifier) compare(p *pyVersion) bool {
 		}
 		return true
 	case "~=":
-		parts := versionSplit(s.version)
+		// PEP 440: "~= V.N" is ">= V.N, == V.*" on the *normalised* version.
+		// packaging <= 21 splits the raw text, so a non-canonical spelling
+		// ("v3.9", "0!3.9", "3.9.6-rc.1") yields a garbage prefix; the
+		// reference follows PEP 440 (and packaging >= 22) here, see
+		// prefixQuirk.
+		parts := versionSplit(normText(s.version))
 		var keep []string
 		for _, x := range parts {
 			if !isNotSuffix(x) {
@@ -506,10 +511,36 @@ func (s specifier) compare(p *pyVersion) bool {
 	panic("ref: operator " + s.op)
 }
 
+// normText is str(Version(t)) (t itself if it is not a version).
+func normText(t string) string {
+	if v, ok := refParseVersion(t); ok {
+		return v.String()
+	}
+	return t
+}
+
+// prefixQuirk: packaging <= 21 does prefix matching ("== V.*", "~= V") on the
+// specifier's raw text; it differs from PEP 440 when that text is not in
+// normal form.
+func prefixQuirk(op, rhs string) bool {
+	sp, ok := refSpecifier(op, rhs)
+	if !ok {
+		return false
+	}
+	switch {
+	case op == "~=":
+		return normText(sp.version) != sp.version
+	case (op == "==" || op == "!=") && strings.HasSuffix(sp.version, ".*"):
+		t := sp.version[:len(sp.version)-2]
+		return normText(t) != t
+	}
+	return false
+}
+
 func (s specifier) equal(p *pyVersion) bool {
 	if strings.HasSuffix(s.version, ".*") {
 		pub := p.public()
-		splitSpec := versionSplit(s.version[:len(s.version)-2])
+		splitSpec := versionSplit(normText(s.version[:len(s.version)-2]))
 		splitP := versionSplit(pub.String())
 		if len(splitP) > len(splitSpec) {
 			splitP = splitP[:len(splitSpec)]
